@@ -38,11 +38,17 @@ def scenario(recs, kind, seed, ipv, opts=()):
 
 
 def _one(sc):
+    from harness import runner as _rn
+    keep = _rn.RUN_LIMIT
+    if sc.get("run_limit"):
+        _rn.RUN_LIMIT = sc["run_limit"]
     try:
         cap, conns, flows, res, obs, o = run_tls(sc, trace=False)
     except Exception:
         import traceback
         return dict(machinery=traceback.format_exc()[-1500:])
+    finally:
+        _rn.RUN_LIMIT = keep
     tr = out_trace(cap, conns, flows, o, sc.get("opts", ())) if o is not None and not sc.get("unclaimed") else None
     c = conns[0]
     got = obs["conns"][0] if obs["conns"] else dict(c=b"", s=b"")
@@ -131,6 +137,12 @@ def run(chk):
         if rng.random() < 0.4:
             cd["alert_at"] = {str(rng.randrange(len(cd["app"]))): [rng.choice("cs"), rng.choice([1, 2])]}
         jobs.append(dict(conns=[cd], opts=list(rng.choice([(), ("-a",), ("-m",)])), unclaimed=True, zoo=(cd["seed"] if i % 4 == 0 else 0)))
+    if not quick:
+        # a conversation of more than 2^16 output packets (every 16-bit field of the generated packets has wrapped): 33 500 one-byte records of the server
+        # in an IPv4 connection; judged for abort-freedom, well-formedness and content (about two minutes; thorough tier only)
+        for ipv in (4, 6):
+            jobs.append(dict(conns=[dict(ver=R.TLS12, suite=0xC02F, seed=rng.randrange(1 << 30), shape={}, flow=dict(ipv=ipv),
+                                         app=[["c", 10]] + [["s", 1]] * 33500 + [["c", 3]], mss=None)], opts=[], unclaimed=True, run_limit=1500, big=True))
     results = pool_map(_one, jobs)
     traces = []
     for res in results:
@@ -145,6 +157,8 @@ def run(chk):
             chk.violation("run aborted: " + res["exc"].strip().splitlines()[-1], dict(scenario=res["sc"]))
         elif res["problems"]:
             chk.violation("output not well-formed: " + res["problems"][0], dict(scenario=res["sc"], problems=res["problems"]))
+        elif res["sc"].get("big") and not res["same"]:
+            chk.violation("a conversation of more than 2^16 output packets is not exported exactly", dict(scenario=dict(res["sc"], conns="33 500 one-byte server records")))
         elif "-a" not in res["sc"]["opts"] and not res["sc"].get("unclaimed"):
             for t in res["traces"] or []:
                 t["_sc"] = res["sc"]
